@@ -17,7 +17,6 @@
 package override
 
 import (
-	"cmp"
 	"fmt"
 	"reflect"
 	"strings"
@@ -44,12 +43,16 @@ func init() {
 	mergeSpecials["networks.*.ipam.config"] = mergeIPAMConfig
 	mergeSpecials["networks.*.labels"] = mergeToSequence
 	mergeSpecials["volumes.*.labels"] = mergeToSequence
+	mergeSpecials["secrets.*.labels"] = mergeToSequence
+	mergeSpecials["configs.*.labels"] = mergeToSequence
 	mergeSpecials["services.*.annotations"] = mergeToSequence
 	mergeSpecials["services.*.build"] = mergeBuild
 	mergeSpecials["services.*.build.args"] = mergeToSequence
 	mergeSpecials["services.*.build.additional_contexts"] = mergeToSequence
 	mergeSpecials["services.*.build.extra_hosts"] = mergeExtraHosts
 	mergeSpecials["services.*.build.labels"] = mergeToSequence
+	mergeSpecials["services.*.build.ssh"] = mergeToSequence
+	mergeSpecials["services.*.build.ulimits.*"] = mergeUlimit
 	mergeSpecials["services.*.command"] = override
 	mergeSpecials["services.*.depends_on"] = mergeDependsOn
 	mergeSpecials["services.*.deploy.labels"] = mergeToSequence
@@ -200,7 +203,14 @@ func convertIntoSequence(value any) []any {
 	switch v := value.(type) {
 	case map[string]any:
 		var seq []any
-		for k, val := range v {
+		keys := make([]string, 0, len(v))
+		for k := range v {
+			keys = append(keys, k)
+		}
+		// keys in a fixed order; the values listed under one key keep the order they were written in
+		slices.Sort(keys)
+		for _, k := range keys {
+			val := v[k]
 			if val == nil {
 				seq = append(seq, k)
 			} else {
@@ -215,9 +225,6 @@ func convertIntoSequence(value any) []any {
 				}
 			}
 		}
-		slices.SortFunc(seq, func(a, b any) int {
-			return cmp.Compare(a.(string), b.(string))
-		})
 		return seq
 	case []any:
 		return v
